@@ -2502,10 +2502,13 @@ fn format_unix_timestamp(unix_secs: u64) -> String {
     )
 }
 
-fn days_to_ymd(days: u64) -> (u32, u32, u32) {
-    // Simplified algorithm - works for dates from 1970 to ~2100
-    let mut remaining_days = days as i64;
-    let mut year = 1970u32;
+fn days_to_ymd(days: u64) -> (u64, u32, u32) {
+    // The Gregorian calendar repeats every 400 years (146 097 days): skip whole cycles at once
+    // so that the year loop below runs at most 400 times for any input, and count years in
+    // 64 bits so that far-future timestamps cannot overflow the counter.
+    const DAYS_PER_400_YEARS: u64 = 146_097;
+    let mut remaining_days = (days % DAYS_PER_400_YEARS) as i64;
+    let mut year = 1970u64 + (days / DAYS_PER_400_YEARS) * 400;
 
     loop {
         let days_in_year = if is_leap_year(year) { 366 } else { 365 };
@@ -2535,7 +2538,7 @@ fn days_to_ymd(days: u64) -> (u32, u32, u32) {
     (year, month, day)
 }
 
-fn is_leap_year(year: u32) -> bool {
+fn is_leap_year(year: u64) -> bool {
     (year % 4 == 0 && year % 100 != 0) || (year % 400 == 0)
 }
 
